@@ -1,6 +1,6 @@
 """C08 Fast-mode dataset equals light-mode items, however it is initialised."""
 import astq
-from rules import cgsize, dsinit
+from rules import cgsize, dsinit, x86hsem
 
 LEVEL = 'other'
 TECHNIQUE = 'affine / interval case analysis of randomx_init_dataset over (count mod 4) x (count < 4) regions, constant-table agreement spec vs C++ vs assembled object, call-sequence and shape rules on the item construction; evaluation of the address-arithmetic slice on a sample set of ranges'
@@ -21,3 +21,4 @@ def run(ctx, R):
     dsinit.rule_initsel(ctx, R, F)
     dsinit.rule_dsconst(ctx, R, F)
     cgsize.rule_layout(ctx, R, F)
+    x86hsem.rule_ss_hsem(ctx, R)    # compiled and interpreted dataset initialisation compute the same SuperscalarHash
